@@ -1,4 +1,5 @@
 import DispatchVerif.Core.SemaP
+import DispatchVerif.Core.SemaCnt
 /-! # C08 — semaphores conserve permits: no spurious success, no lost signal
 
 `SemaP` models `dispatch_semaphore_signal / _wait / _dispatch_semaphore_wait_slow` of `src/semaphore.c`: the value word,
@@ -25,5 +26,17 @@ theorem conservation {v : Nat} {s : St} (h : Reachable v s) (hq : ∀ t, s.pcs t
 theorem forever_waiter_released {v : Nat} {s : St} (h : Reachable v s) (t : Tid)
     (hb : s.pcs t = .wDrain) (hk : s.sh.ksem = 0) (hp : s.sh.posters = []) : s.sh.value < 0 :=
   SemaP.forever_waiter_released h t hb hk hp
+
+/-! ## the permit counter is a `long` (F49)
+
+`SemaP` counts permits in an unbounded integer. The real counter agrees with it as long as no increment passes LONG_MAX; the library
+refuses that increment (a client crash) - as repaired; as found the refusal had been compiled away. -/
+
+/-- **an accepted signal makes the counter exactly one more, still a `long`** - the range in which `SemaP` describes the word -/
+theorem signal_counter_exact (v v' : Int) (hv : SemaCnt.LONG_MIN ≤ v ∧ v ≤ SemaCnt.LONG_MAX) (h : SemaCnt.signal v = some v') :
+    v' = v + 1 ∧ SemaCnt.LONG_MIN ≤ v' ∧ v' ≤ SemaCnt.LONG_MAX ∧ SemaCnt.signalRaw v = v' := SemaCnt.signal_exact v v' hv h
+
+/-- **F49 as found**: one signal on a semaphore holding LONG_MAX permits makes the counter LONG_MIN; as repaired it is refused -/
+theorem F49_as_found : SemaCnt.signalRaw SemaCnt.LONG_MAX = SemaCnt.LONG_MIN ∧ SemaCnt.signal SemaCnt.LONG_MAX = none := SemaCnt.F49_as_found
 
 end C08
